@@ -82,7 +82,7 @@ def make_history(rng):
         for _ in range(rng.randrange(1, 5)):
             if rng.random() < 0.45:
                 s, a = rng.choice(hot)
-                batch.append((s, a, rng.choice(VALUES[:3]), True))       # hot cells alternate between few values: a, b, a again
+                batch.append((s, a, rng.choice([0, 1, -3, True, False, 1.0, 0.0]), True))       # hot cells alternate between few values: a, b, a again - and between values that are == but not the same constant (1, TRUE, 1.0)
                 continue
             s = rng.choice([0, 0, 1])
             a = rng.choice(TARGETS[s])
